@@ -125,6 +125,20 @@ def gen_cases(ctx, eps_ws=L.EPS_WS, eps_http=L.EPS_HTTP, pairs=None):
         next_id[0] += 1
         return 1000000 + next_id[0]      # fixed width: the parameter length identifies the message size
 
+    # single frames FAR beyond the limit (above every plausible internal frame cap: 16 MiB + 1, 24 MiB): still one -32007 and
+    # the connection keeps serving (only with the default entry-point set, i.e. not when a caller narrows eps/pairs)
+    if pairs is None:
+        for ep in eps_ws:
+            for rq, sz in ((100, 16 * 1024 * 1024 + 1), (4096, 24 * 1024 * 1024)) if (ctx.thorough or ctx.search_mode) else ((100, 16 * 1024 * 1024 + 1),):
+                msgs, meta = [], []
+                m0, k0, p0 = L.small_call(nid())
+                msgs.append(m0); meta.append({"size": L.segs_len(m0), "kind": k0, "plen": p0})
+                m, kind, plen = L.sized_message(nid(), sz)
+                msgs.append(m); meta.append({"size": sz, "kind": kind, "plen": plen})
+                m2, k2, p2 = L.small_call(nid())
+                msgs.append(m2); meta.append({"size": L.segs_len(m2), "kind": k2, "plen": p2})
+                cases.append({"ep": ep, "t": "ws", "rq": rq, "rs": 65536, "msgs": msgs, "_meta": meta})
+
     for rq, rs in (pairs or grid(ctx)):
         sizes = sizes_for(ctx, rq, rs)
         # ---- WS: one connection, every size followed later by a small call
@@ -324,6 +338,20 @@ def oracle(ctx, c, r, prop="C07"):
         if not st:
             fails.append(("http-transport-error:" + where, str(r)[:300], None))
             return fails
+        # whatever the server rejects over HTTP with a JSON body, that body is a JSON-RPC 2.0 error response (C15: only valid
+        # JSON-RPC 2.0 is emitted): jsonrpc "2.0", an id, an error object with integer code and string message, nothing else
+        if st >= 400 and r.get("body"):
+            import json as _json
+            try:
+                o = _json.loads(bytes.fromhex(r["body"]))
+                good = (isinstance(o, dict) and set(o) == {"jsonrpc", "id", "error"} and o["jsonrpc"] == "2.0" and isinstance(o["error"], dict)
+                        and isinstance(o["error"].get("code"), int) and isinstance(o["error"].get("message"), str)
+                        and set(o["error"]) <= {"code", "message", "data"})
+            except Exception:
+                good = False
+            if not good:
+                fails.append(("http-error-body-not-a-jsonrpc-response:" + where,
+                              "HTTP %d body %r" % (st, bytes.fromhex(r["body"])[:200]), c))
         if meta["size"] > rq or clv > rq:
             if log:
                 fails.append(("oversize-request-dispatched:" + where, "body %d bytes (Content-Length %s) > %d reached a handler: %s" % (meta["size"], cl, rq, log), c))
@@ -340,6 +368,33 @@ def oracle(ctx, c, r, prop="C07"):
             elif sorted(log) != exp_log and not (c["ep"] == "httpcall" and meta["kind"] != "echo"):
                 fails.append(("handler-log-mismatch:" + where, "log %s, expected %s" % (log, exp_log), c))
     return fails
+
+
+def http_error_bodies(ctx):
+    """used by C15: every HTTP rejection class of the size/stream path on every entry point; the body the server emits must be a
+    JSON-RPC 2.0 error response (oracle inside `oracle`: key http-error-body-not-a-jsonrpc-response)"""
+    cases = []
+    k = [0]
+    for ep in L.EPS_HTTP:
+        for rq in (64, 256):
+            for total, cl, how in ((rq + 1, rq + 1, "one"), (rq + 1, None, "two"), (4 * rq, None, "many"), (rq + 40, None, "first1"), (rq + 1, 2 ** 32 + 5, "one"), (rq - 1, rq - 1, "one")):
+                k[0] += 1
+                m, kind, plen = L.sized_message(3000000 + k[0], total)
+                frames = split_frames(ctx.rng, m, total, how)
+                if ep not in L.HTTP_SOCKET_FREE and cl is not None and cl != total:
+                    continue
+                cases.append({"ep": ep, "t": "http", "rq": rq, "rs": 65536, "frames": frames, "cl": cl,
+                              "_meta": [{"size": total, "kind": kind, "plen": plen}]})
+    res = L.run_srv([public(c) for c in cases])
+    n = 0
+    for c, r in zip(cases, res):
+        ctx.count("http-error-body:%s" % (r.get("status") or "none"))
+        ctx.evaluations += 1
+        for key, detail, reduced in oracle(ctx, c, r, "C15"):
+            if key.startswith("http-error-body-not-a-jsonrpc-response"):
+                ctx.fail("oracle", key, public(c), detail)
+        n += 1 if (r.get("status") or 0) >= 400 else 0
+    ctx.count("http-error-bodies-checked", n)
 
 
 def run_and_judge(ctx, cases, prop="C07", use_model=True, only_independence=False):
